@@ -104,7 +104,7 @@ def draw_cfg(rng: random.Random, **force: Any) -> Cfg:
     c.noise = rng.random() < 0.8
     c.pre_post = rng.random() < 0.7
     c.filler = rng.choice([130, 260]) if rng.random() < 0.08 else 0
-    c.corr_start = rng.choice([None, None, 1, 100])
+    c.corr_start = rng.choice([None, None, None, 1, 100, -1])
     c.tid_base = rng.choice([100] * 12 + [3, 2, 1, 50000])
     c.share_streams = rng.choice([0.0, 0.0, 0.5])
     c.__dict__.update(force)
@@ -118,7 +118,7 @@ class RankSim:
         self.rank = rank
         self.g = cfg.grid
         self.ev: List[Dict[str, Any]] = []
-        self.corr = rng.choice([1, 5, 100, 278204204])
+        self.corr = rng.choice([-1, 1, 5, 100, 278204204])    # -1: the first correlation id of the rank may be 0
         if cfg.corr_start is not None:
             self.corr = cfg.corr_start
         self.host_pid = 1000 + rank
